@@ -6,6 +6,7 @@ from skgstat import Variogram
 from skgstat.util.uncertainty import propagate
 
 from .common import quiet, frs, fr, parse_nums, all_close, close, gen_coords, gen_values
+from .common import guarded
 
 INFO = dict(
     rule='seeded variograms x sigma >= 0 (incl. 0) x q in [0, 100] (incl. odd and fractional) x num_iter x evaluated '
@@ -28,14 +29,20 @@ def gen(ctx):
     return dict(coords=coords.tolist(), values=values.tolist(), kw=kw, unit=unit,
                 sigma=float(rng.choice([0.0, 0.3, 0.3, 1.5])), q=float(rng.choice([0, 0, 0, 5, 10, 25, 33, 7.5, 50, 100])),
                 num_iter=int(rng.choice([9, 15, 30])), seed=int(rng.integers(0, 10 ** 6)),
-                evalf=str(rng.choice(['experimental', 'experimental', 'parameter', 'model'])))
+                evalf=str(rng.choice(['experimental', 'experimental', 'parameter', 'model'])),
+                # the source carries settings of its own: obs_sigma given to the constructor (the documented
+                # shortcut), or set later through update_kwargs
+                src_kwargs=str(rng.choice(['none', 'none', 'ctor_obs_sigma', 'update_obs_sigma'])))
 
 
 def snapshot(V):
     with quiet():
         return dict(values=np.asarray(V.values).tolist(), bins=np.asarray(V.bins).tolist(),
                     exp=np.asarray(V.experimental).tolist(), params=[float(p) for p in V.parameters],
-                    descr=repr(sorted((k, repr(v)) for k, v in V.describe()['params'].items())))
+                    descr=repr(sorted((k, repr(v)) for k, v in V.describe()['params'].items())),
+                    kwargs=repr(sorted((k, repr(v)) for k, v in V.describe().get('kwargs', {}).items())),
+                    conf=repr(np.asarray(getattr(V, '_experimental_conf_interval', None), float).tolist())
+                    if getattr(V, '_experimental_conf_interval', None) is not None else None)
 
 
 def members(V, case):
@@ -57,12 +64,25 @@ def members(V, case):
     return np.array(out)
 
 
+@guarded
 def check_case(ctx, case):
     coords = np.array(case['coords'], float)
     values = np.array(case['values'], float)
     try:
+        sk = case.get('src_kwargs', 'none')
         with quiet():
-            V = Variogram(coords, values, **case['kw'])
+            if sk == 'ctor_obs_sigma':
+                V = Variogram(coords, values, obs_sigma=0.25, **case['kw'])
+            else:
+                V = Variogram(coords, values, **case['kw'])
+            if sk == 'update_obs_sigma':
+                V.update_kwargs(obs_sigma=0.25)
+            kwargs_now = dict(V.describe().get('kwargs', {}))
+        if sk != 'none' and kwargs_now.get('obs_sigma') != 0.25:
+            ctx.violation('source-modified', 'the source was given obs_sigma=0.25 (%s) but its settings report %r' % (
+                sk, kwargs_now), case, signature=dict(kind='source-modified'))
+            return
+        ctx.count('source_kwargs:' + sk)
         before = snapshot(V)
         args = dict(source='values', sigma=case['sigma'], evalf=case['evalf'], num_iter=case['num_iter'],
                     seed=case['seed'], q=case['q'])
